@@ -20,6 +20,7 @@ This file is part of libECBUFR.
 #include <stdio.h>
 #include <math.h> 
 #include <limits.h> 
+#include <float.h>
 #include <inttypes.h>
 
 #include "config.h"
@@ -741,7 +742,7 @@ static int32_t bufr_single_get_significand ( float fvalue, int32_t *exponent, in
 
    *denormal = 0;
    expon = logf(fvalue)/logf(2.0);
-   if (expon < -126) expon = -126;
+   if ((expon < -126)||(fvalue < FLT_MIN)) expon = -126;
    if (expon > 127) expon = 127;
    fvalue = fvalue / pow( 2.0, expon );
 
@@ -766,7 +767,7 @@ static int32_t bufr_single_get_significand ( float fvalue, int32_t *exponent, in
          }
       else
          ival = ival << 1;
-      if ((ni0 > 0)||(nb > 0)) rem -= 1;
+      if ((ni0 > 0)||(nb > 0)||(expon == -126)) rem -= 1;
       }
    if (nb > 0)
       {
@@ -817,7 +818,7 @@ static int64_t bufr_double_get_significand ( double fvalue, int64_t *exponent, i
 
    *denormal = 0;
    expon = log(fvalue)/log(2.0);
-   if (expon < -1022) expon = -1022;
+   if ((expon < -1022)||(fvalue < DBL_MIN)) expon = -1022;
    if (expon > 1023) expon = 1023;
    fvalue = fvalue / pow( 2.0, expon );
 
@@ -842,7 +843,7 @@ static int64_t bufr_double_get_significand ( double fvalue, int64_t *exponent, i
          }
       else
          ival = ival << 1;
-      if ((ni0 > 0)||(nb > 0)) rem -= 1;
+      if ((ni0 > 0)||(nb > 0)||(expon == -1022)) rem -= 1;
       }
    if (nb > 0)
       {
